@@ -88,6 +88,11 @@ class CallsMixin:
         if con is not None and oc and any(x and x in callee for x in oc.split(',')):
             cx.notes.append('contract of %s deliberately not used here (treated as opaque)' % callee)
             return self.call_opaque(st, fr, ins, callee, args)
+        if con is not None and con.opts.get('callers') == 'opaque':
+            # the contract states what the body establishes but not a complete frame: callers do
+            # not rely on it
+            cx.notes.append('contract of %s is for its own body only (callers treat it as opaque)' % callee)
+            return self.call_opaque(st, fr, ins, callee, args)
         if con is not None and not con.inline:
             sig = self.prog.sigs.get(callee) or {}
             params = [p['name'] for p in (sig.get('params') or [])]
@@ -145,6 +150,13 @@ class CallsMixin:
                 g = ev.bool(c.expr)
             except SpecError as ex:
                 cx.stale(name, str(ex))
+                continue
+            if c.label == 'typeinv':
+                # a type invariant of the argument (e.g. items held by the VM are well-formed): used
+                # where the caller can show it, otherwise assumed and listed
+                if not cx.quick_valid(g):
+                    cx.assumed_used.add('type invariant of an argument assumed at a call of %s in %s: %s' % (short, me, c.text))
+                st.assume(g)
                 continue
             if c.label == 'nopanic' and cx.contract.may_panic:
                 # a panic guard of the callee: where it fails the callee panics, which a may-panic
